@@ -29,6 +29,18 @@ CHECKS = {
    "Drives the real InterceptedService with generated http requests (all methods/versions, reserved/binary/repeated headers, extensions, token body) and interceptor actions; a capture service records what the wrapped service sees and a reference multimap transformer predicts it; rejections are decoded with the harness's own status codecs.",
    "Held on the executions produced.",
    "runtime monitoring: reference transformer model at the service boundary", "DESIGN.md#c12"),
+ "C02": ("exploration",
+   "Drives the real generated client against the real generated server with script-defined handlers for all four call shapes; compares the client-visible history with a reference model of the shapes and the handler-side log with what the caller sent. Quick: in-process loopback transport whose bodies are re-chunked/merged with injected Pending. Thorough adds real Endpoint/Server HTTP/2 over a fragmenting pipe with tiny windows on a paused clock.",
+   "Held on the executions produced; metadata compared by inclusion because tonic legitimately adds headers.",
+   "runtime monitoring: reference model of the call shapes at client and handler boundaries", "DESIGN.md#c02"),
+ "C13": ("fault_enumeration",
+   "Runs the real serve_with_incoming_shutdown against real channels over fragmenting in-memory pipes on a paused clock; the shutdown signal is placed on (and next to) every phase boundary of 1..6 scripted concurrent calls on 1..3 connections, or fired in the same accept-loop iteration that takes a connection; an offline checker over the recorded event log decides loss of accepted calls, acceptance after the signal, resolve-before-close and bounded (3600 virtual s) resolution.",
+   "Held on the schedules produced (virtual time, tokio select! branch order is not seedable); benign close model (no RST) in the pipe; server windows below the HTTP/2 default only on pre-established connections (h2 stalls otherwise, see DESIGN.md).",
+   "runtime monitoring: offline event-log checker over signal placements in virtual time", "DESIGN.md#c13"),
+ "C14": ("fault_enumeration",
+   "Enumerates (thorough: all 1800; quick: a seeded sample) short scripts over {connect fails, connect succeeds, established connection reset} x lazy/eager plus sampled longer ones; a scripted connector feeds the real Channel and a real server; each call is judged by a reference model driven by the connector invocations actually observed during that call; hangs are decided in virtual time.",
+   "Held on the scripts produced; calls are issued at quiescent points only (as the property says).",
+   "runtime monitoring: fault-script enumeration + reference model driven by observed connector invocations", "DESIGN.md#c14"),
 }
 
 NOT_YET = {}
